@@ -5,6 +5,7 @@ mod bq;
 mod crash;
 mod exec;
 mod faults;
+mod fixture;
 mod gen;
 mod ids;
 mod kernels;
@@ -12,6 +13,7 @@ mod keys;
 mod profiles;
 mod replay;
 mod threads;
+mod upgrade;
 mod util;
 
 use std::fs::File;
@@ -30,6 +32,13 @@ scenarios
   kernels   distance kernels x lengths x offsets x value families -> kern / dist records
   bq        binary quantisation of vectors                -> bq records
   keys      raw keys written by real operations           -> keyseen records
+  ids       schedule-controlled runs of ConcurrentNodeIds (C13)  -> ids records
+  threads   one writer + 1..8 readers on one environment (C08)   -> history + snapshot records
+  crash     kill a child process at chosen points, reopen (C09)  -> child trace + expect-recovered ...
+  faults    cancellation sweep / map sizes / bad temp dir / fd ledger (C10)
+  fixture-gen --metric M     write a golden fixture (C16)
+  fixture-load <fixture>     load a fixture with rawput, re-ask the recorded questions, update, rebuild
+  upgrade   v0.4 layout -> upgrade04to05 -> upgrade05to06 (C17)
   profiles  list the profile names
 
 common options
@@ -61,6 +70,28 @@ bq
 
 keys
   --random N          random (index, item) probes after the boundary lattice (default 2000 / 10000)
+
+ids
+  --max-schedules N   per configuration: exhaustive when it has at most N schedules, else N sampled
+                      ones (default 3000 quick, 40000 thorough)
+
+threads   (--profile c08, --cases N, --first-case, --only-case as for hist)
+  --max-snapshots N   snapshot records per case (default 200 quick, 1000 thorough)
+
+crash     (--profile c09; --cases N = number of histories, default 4 quick / 40 thorough)
+  --max-polls N       kill points inside the cancellation callback per history (default 40 / 400)
+  --op-points N       kill points between update ops per history (default 8 / 30)
+  --commit-points N   kills 0..3 ms after `note committing` per history (default 8 / 30)
+
+faults
+  --part sweep|mapsize|tmpdir|fdcheck|all   (default all)
+  --cases N           cases (sweep, tmpdir) / histories (mapsize: x 12 map sizes) of the part
+  --builds N          builds of the fdcheck ledger (default 300 quick, 3000 thorough)
+
+fixture-gen
+  --metric M          euclidean manhattan cosine dot bqeuclidean bqmanhattan bqcosine
+
+upgrade   (--profile c17, --cases N, --first-case, --only-case as for hist)
 ";
 
 #[derive(Default)]
@@ -91,6 +122,7 @@ struct Args {
     commit_points: Option<usize>,
     part: Option<String>,
     builds: Option<usize>,
+    metric: Option<String>,
 }
 
 fn parse_args() -> Result<Args, String> {
@@ -133,6 +165,7 @@ fn parse_args() -> Result<Args, String> {
             "--max-polls" => args.max_polls = Some(value(&mut it, "--max-polls")?),
             "--op-points" => args.op_points = Some(value(&mut it, "--op-points")?),
             "--commit-points" => args.commit_points = Some(value(&mut it, "--commit-points")?),
+            "--metric" => args.metric = Some(value(&mut it, "--metric")?),
             "--part" => args.part = Some(value(&mut it, "--part")?),
             "--builds" => args.builds = Some(value(&mut it, "--builds")?),
             "--max-schedules" => args.max_schedules = Some(value(&mut it, "--max-schedules")?),
@@ -347,6 +380,51 @@ fn real_main() -> Result<(), String> {
             out.flush().map_err(|e| e.to_string())?;
             if !args.quiet {
                 eprintln!("faults {}: {cases} cases, {:.1}s", opts.part, started.elapsed().as_secs_f64());
+            }
+            Ok(())
+        }
+        "fixture-gen" => {
+            let name = args.metric.clone().ok_or("fixture-gen needs --metric")?;
+            let metric = util::Metric::parse(&name).ok_or_else(|| format!("unknown metric {name}"))?;
+            let mut out = open_out(&args.out)?;
+            fixture::generate(metric, &mut *out)?;
+            out.flush().map_err(|e| e.to_string())
+        }
+        "fixture-load" => {
+            let path = args.positional.first().ok_or("fixture-load needs a fixture file")?;
+            let mut input =
+                BufReader::new(File::open(path).map_err(|e| format!("{path}: {e}"))?);
+            let mut out = open_out(&args.out)?;
+            let _ = writeln!(out, "# harness fixture-load {path}");
+            let mismatches = fixture::load(&mut input, &mut *out)?;
+            out.flush().map_err(|e| e.to_string())?;
+            if !args.quiet {
+                eprintln!("fixture-load {path}: {mismatches} recorded answers differ");
+            }
+            Ok(())
+        }
+        "upgrade" => {
+            let name = args.profile.clone().unwrap_or_else(|| "c17".to_string());
+            let profile = profiles::profile(&name, tier)
+                .ok_or_else(|| format!("unknown profile {name} (see `harness profiles`)"))?;
+            let mut out = open_out(&args.out)?;
+            let cases = args.cases.unwrap_or(profile.default_cases);
+            let range: Vec<u64> = match args.only_case {
+                Some(n) => vec![n],
+                None => (args.first_case..args.first_case + cases).collect(),
+            };
+            let _ = writeln!(out, "# harness upgrade --profile {name} --seed {seed} --cases {cases}");
+            let mut panics = 0;
+            for n in &range {
+                panics += upgrade::run_case(&profile, *n, util::case_seed(seed, *n), &mut *out)? as usize;
+            }
+            out.flush().map_err(|e| e.to_string())?;
+            if !args.quiet {
+                eprintln!(
+                    "upgrade {name}: {} cases, panicked cases={panics}, {:.1}s",
+                    range.len(),
+                    started.elapsed().as_secs_f64()
+                );
             }
             Ok(())
         }
